@@ -95,12 +95,15 @@ def build_jobs(tier, rep):
     jobs += [(cfgs[k % len(cfgs)], "render", d) for k, d in enumerate(l0)]
     ld = gen.docs("LD", tier, rep, wrapname="WrapD")
     sj += [(cfgs[(0, 5)[k % 2]], "render", d) for k, d in enumerate(ld)]
+    # ... and every emphasis sentence of MCEmphGen (runs of * _ ~ of length 1-4 between words and punctuation)
+    es = gen.emphasis_sentences(rep)
+    sj += [(cfgs[(0, 5)[k % 2]], "render", d) for k, d in enumerate(es)]
     sk = C.pmap(skeleton_job, sj, chunk=2000)
     seen = {}
     for j, x in zip(sj, sk):
         seen.setdefault((j[0], x), j)
     jobs += list(seen.values())
-    rep.cov["bounds_skeletons"] = {"L2_and_LD_rendered": len(sj), "LD_delimiter_dense": len(ld), "distinct_tag_structures": len(seen)}
+    rep.cov["bounds_skeletons"] = {"L2_and_LD_rendered": len(sj), "LD_delimiter_dense": len(ld), "emphasis_sentences": len(es), "distinct_tag_structures": len(seen)}
     # a few documents at scale (size thresholds: padded table cells, long lists, deep nesting)
     scale = ["|" + "h|" * 256 + "\n|" + "-|" * 256 + "\n" + "x\n" * 262,
              "|" + "<b>|" * 1000 + "\n|" + "-|" * 1000 + "\n" + "|&|\n" * 70,
